@@ -187,6 +187,33 @@ def _impl(tier, seed, search):
                             L.fail(f'slice-value:{"step" + str(st) if st not in (None, 1) else ("negstop" if (b_ is not None and b_ < 0) else ("negstart" if (a is not None and a < 0) else ("overlong" if (b_ is not None and b_ > n) or (a is not None and a > n) else "plain")))}',
                                    f'{c}: x[{a}:{b_}:{st}] on length {n} has {len(got) if hasattr(got, "__len__") else "?"} items of class {type(got).__name__}; a list gives {len(want)}', dict(cls=c, length=n, slice=[a, b_, st]))
     L.sample('slice', dict(cls='SE3', length=4, slice=[0, -1, None]))
+    # ---- values as the library's own operators leave them after a long computation (drift ~1e-14): stored values are not validated again
+    for c in ('SO2', 'SE2', 'SO3', 'SE3'):
+        cls, one = CL[c]
+        dr = []
+        for _ in range(4):
+            Z = cls(one())
+            for k_ in (-3, 4, 5, -2): Z = Z ** k_
+            dr.append(np.array(Z.A, float))
+        X = cls.Empty(); X.data = [d_.copy() for d_ in dr]
+        for sl in (slice(None), slice(1, 3), slice(None, None, -1), slice(0, 4, 2)):
+            L.count('slice')
+            try: got = X[sl]
+            except Exception as e:
+                L.fail('slice-raises:drifted', f'{c}: a slice of an object holding values with the rounding drift of a long product raised {type(e).__name__}', dict(cls=c, slice=[sl.start, sl.stop, sl.step])); continue
+            if len(got) != len(dr[sl]) or not all(np.array_equal(np.asarray(a_, float), w_) for a_, w_ in zip(got.data, dr[sl])):
+                L.fail('slice-value:drifted', f'{c}: slice of drifted values differs from the list slice', dict(cls=c, slice=[sl.start, sl.stop, sl.step]))
+        for i_ in (0, -1, 2):
+            L.count('index')
+            try: gi = X[i_]
+            except Exception as e:
+                L.fail('index:drifted', f'{c}: x[{i_}] on an object holding drifted values raised {type(e).__name__}', dict(cls=c, index=i_)); continue
+            if not np.array_equal(np.asarray(gi.data[0], float), dr[i_]): L.fail('index:drifted', f'{c}: x[{i_}] is not the stored value', dict(cls=c, index=i_))
+        try:
+            its = [np.asarray(e_.A, float) for e_ in X]
+            if len(its) != 4 or not all(np.array_equal(a_, w_) for a_, w_ in zip(its, dr)): L.fail('iter:drifted', f'{c}: iteration over drifted values does not yield them in order', dict(cls=c))
+        except Exception as e:
+            L.fail('iter:drifted', f'{c}: iteration over drifted values raised {type(e).__name__}', dict(cls=c))
     # ---- the spatial-vector classes are list-capable too: slices, indices and construction from lists, lengths 0..8 (6 x 6 is a matrix form) ----
     from spatialmath.spatialvector import SpatialVelocity, SpatialAcceleration, SpatialForce, SpatialMomentum
     for scls in (SpatialVelocity, SpatialAcceleration, SpatialForce, SpatialMomentum):
